@@ -23,6 +23,11 @@
    data / the leases at all (short reads make struct.unpack fail). *)
 EXTENDS Common
 
+\* FALSE: the code under test (data length derived from the file size); TRUE: the reading proposed
+\* in mutants/C29_proposed_fix.diff (the share-data-length field of the header is trusted when it is
+\* not saturated and consistent with the file size)
+CONSTANT ImmByHeader
+
 Big == 1073741824
 RECURSIVE UDec(_, _)
 \* big-endian unsigned decode, saturating at Big (TLC integers are 32 bit)
@@ -63,7 +68,10 @@ RecoverImm(f) ==
   IF Len(f) < 12 THEN Unreadable
   ELSE LET ver == U(f, 0, 4)
            n   == U(f, 8, 4)
-           lo  == Len(f) - ImmLeaseSize * n
+           hdr == U(f, 4, 4)
+           lo  == IF ImmByHeader /\ hdr < Big /\ n < Big /\ 12 + hdr + ImmLeaseSize * n <= Len(f)
+                    THEN 12 + hdr
+                    ELSE Len(f) - ImmLeaseSize * n
        IN IF ver \notin {1, 2} THEN Unreadable
           ELSE LET data == IF lo > 12 THEN ReadAt(f, 12, lo - 12) ELSE <<>>
                    recs == IF lo < 0 THEN <<>> ELSE [i \in 1..n |-> ReadAt(f, lo + ImmLeaseSize * (i - 1), ImmLeaseSize)]
